@@ -134,8 +134,8 @@ claim("C04", "other",
       "fields; preprocess_tag_block_spacing inserts only blank lines and none inside fenced code. The literal-span sequence comparison is the bounded "
       "layer; two defects found by it (code re-split at Unicode separators, blank line inserted inside fenced code) were repaired.",
       _PIPE_NOTE + " _min_fence_length (regex scan) is an assumed contract checked against an independent spec on a function "
-      "sweep; code-span delimiter length, link destinations / titles (render_link, render_image, title quotes) and "
-      "coalesce_raw_text_nodes are not under contract.",
+      "sweep; _link_destination (plain or <...> form of a destination) is an assumed contract checked by a round-trip sweep through "
+      "the parser; what _normalize_title_quotes does inside a title is the recorded finding; coalesce_raw_text_nodes is not under contract.",
       "contract-based deductive verification of the wiring (AST->VC + z3); bounded literal-span comparison as stand-in",
       "DESIGN.md §3 C04")
 claim("C06", "other",
@@ -143,7 +143,9 @@ claim("C06", "other",
       "is never broken; the line wrappers apply tag-newline handling inside hard-break handling; the tag-newline wrapper's "
       "segments tile the paragraph's lines and every position next to a tag line is a boundary (the newline is kept); "
       "_fix_closing_tag_spacing only inserts blank lines before closing tags after block content and touches no other line "
-      "(that it strips a closing tag's indentation is the recorded finding, residual proved); preprocess_tag_block_spacing puts "
+      "(that it strips a closing tag's indentation is the recorded finding, residual proved); _fix_multiline_opening_tag_with_closing keeps "
+      "every line in order and cuts a line in two exactly when the documented pattern applies, at the start of the closing tag, "
+      "dropping only the blanks at the cut (ST: every alternative of its pattern sets a named group); preprocess_tag_block_spacing puts "
       "a blank line wherever a tag-only line meets block content outside fenced code (spec fence state) and nowhere else. Atomicity of constructs, spacing "
       "and tag-line layout are explored on paragraphs with tags at widths 1..20 and tag-delimited blocks.",
       _PIPE_NOTE + " The atomic-construct regexes, the line predicates (tag-only, block content) and the adjacent-tag "
@@ -193,11 +195,14 @@ claim("C17", "proof",
       "matched by the tool ignore file (path relative to the walk root), prunes into the very list object os.walk yielded and "
       "calls os.walk without followlinks; _is_dir_excluded <=> exclude/gitignore/tool-ignore match of name/ or path/; "
       "_exceeds_max_size (0 = unlimited, strictly larger, unreadable never excludes); cli._resolve_files passes every "
-      "file-discovery option under its own name. Four defects found here were repaired (symlinked files, glob filtering, "
+      "file-discovery option under its own name; load_tool_ignore returns what _read_ignore_file makes of the NEAREST ignore file on "
+      "the parent chain of the resolved start directory (loop invariant over the visited chain), and _read_ignore_file hands "
+      "pathspec exactly the file's non-blank, non-comment lines, verbatim and in order (exact model of the filtering comprehension). "
+      "Four defects found here were repaired (symlinked files, glob filtering, "
       ".flowmarkignore path patterns, multi-segment exclusions for globs).",
       "pathspec.match_file / check_file, os.walk (top-down, descends into the names left in dirnames, no symlinked dirs), "
       "Path.resolve/is_file/stat/glob, list.sort by assumed contracts; completeness of _expand_glob (nothing that passes is "
-      "dropped), the glob-root computation and the ignore-file loaders are covered only by the bounded reference walk; 'no file is missed / order of listing irrelevant' follows from "
+      "dropped) and the glob-root computation are covered only by the bounded reference walk; Path.read_text / splitlines / parent are uninterpreted; 'no file is missed / order of listing irrelevant' follows from "
       "the filter iff plus sortedness and is explored on generated trees.",
       "contract-based deductive verification: AST->VC generation (loop invariants, ghost position map, generator yield log) + z3; "
       "bounded comparison with a reference walk on generated trees", "DESIGN.md §3 C17")
@@ -207,7 +212,9 @@ claim("C18", "proof",
       "decision function), _get_gitignore_chain returns exactly the directories on the path from the walk root to the "
       "directory that have rules, in order, each with its own spec (ghost depth / index list, counting function for "
       "completeness) and descends to the directory itself; _walk_directory and _is_dir_excluded consult the chain only when "
-      "respect_gitignore is set. The defect that made the original code disagree with git (basename matching, any()) was repaired.",
+      "respect_gitignore is set (also at cli._resolve_files); load_gitignore reads exactly the directory's own .gitignore and _read_ignore_file hands "
+      "its rule lines to pathspec verbatim (leading blanks kept, negation-only files are rule files); ST: the caches live in the "
+      "resolver instance, no class- or module-level mutable state. The defect that made the original code disagree with git (basename matching, any()) was repaired.",
       "gitignore pattern semantics are delegated to pathspec.check_file (assumed contract) and compared with git 2.39 "
       "(`git ls-files -co --exclude-standard`) only in the bounded layer; termination of the descent assumed (finite path).",
       "contract-based deductive verification: AST->VC generation (loop invariants, ghost state) + z3; git as oracle in the bounded layer",
